@@ -1,4 +1,4 @@
-use crate::platform::{FcntlFileStatusCmd, Fd, OpenFlags};
+use crate::platform::{FcntlFileStatusCmd, Fd, OpenFlags, FD_CLOEXEC, F_DUPFD_CLOEXEC, F_SETFD};
 use crate::Result;
 use sc::syscall;
 
@@ -27,6 +27,26 @@ pub fn fcntl_set_file_status(fd: Fd, flag: OpenFlags) -> Result<()> {
             flag.bits().0
         )
     };
+    bail_on_below_zero!(res, "`FCNTL` syscall failed");
+    Ok(())
+}
+
+/// Duplicate `fd` onto the lowest free file descriptor that is at least `min`,
+/// the new descriptor has its close-on-exec flag set.
+/// See the [linux documentation for details](https://man7.org/linux/man-pages/man2/fcntl.2.html)
+/// # Errors
+/// See above
+pub fn fcntl_dupfd_cloexec(fd: Fd, min: Fd) -> Result<Fd> {
+    let res = unsafe { syscall!(FCNTL, fd.0, F_DUPFD_CLOEXEC, min.0) };
+    Fd::coerce_from_register(res, "`FCNTL` syscall failed")
+}
+
+/// Set or clear the close-on-exec flag of `fd`
+/// See the [linux documentation for details](https://man7.org/linux/man-pages/man2/fcntl.2.html)
+/// # Errors
+/// See above
+pub fn fcntl_set_cloexec(fd: Fd, cloexec: bool) -> Result<()> {
+    let res = unsafe { syscall!(FCNTL, fd.0, F_SETFD, if cloexec { FD_CLOEXEC } else { 0 }) };
     bail_on_below_zero!(res, "`FCNTL` syscall failed");
     Ok(())
 }
